@@ -255,7 +255,16 @@ func CheckGates(c *Ctx, prop string, specs []GateSpec) {
 			for _, b := range a.Bounds() {
 				have[b] = true
 			}
+			curB := a.Bounds()
 			for _, b := range ft.Bounds {
+				b = strings.TrimPrefix(b, "!")
+				if !have[b] {
+					for _, cb := range curB {
+						if wildMatch(b, cb) {
+							have[b] = true
+						}
+					}
+				}
 				if have[b] {
 					c.R.Ok("APO-BOUND", s.Func, b, pos, "length/index/threshold comparison unchanged (operands and strictness)", true)
 				} else {
@@ -273,6 +282,15 @@ func CheckGates(c *Ctx, prop string, specs []GateSpec) {
 				gsite = "through=" + s.Block + " " + gsite
 			}
 			g, ok := cur[fmt.Sprintf("%s|%v", fg.Cond, fg.FailWhen)]
+			if !ok {
+				// descriptors are depth-limited: "…" stands for an elided subterm
+				for _, cg := range gates {
+					if cg.FailWhen == fg.FailWhen && wildMatch(fg.Cond, cg.Cond) {
+						g, ok = cg, true
+						break
+					}
+				}
+			}
 			if !ok {
 				detail := "required check no longer gates the accept outcome: it is absent, its result is unused, or an accept outcome is reachable when it fails"
 				if og, ok2 := cur[fmt.Sprintf("%s|%v", fg.Cond, !fg.FailWhen)]; ok2 {
@@ -296,7 +314,12 @@ func CheckGates(c *Ctx, prop string, specs []GateSpec) {
 				}
 				var lost []string
 				for _, d := range fg.Deps {
-					if !have[d] {
+					// a dependence on the whole parameter covers a dependence on one of its fields
+					whole := d
+					if i := strings.Index(d, "."); i > 0 {
+						whole = d[:i]
+					}
+					if !have[d] && !have[whole] {
 						lost = append(lost, d)
 					}
 				}
@@ -342,4 +365,28 @@ func countCalls(fn *ssa.Function) int {
 		}
 	}
 	return n
+}
+
+// wildMatch: two depth-limited descriptors agree when they are equal up to
+// the elided subterms ("…" on either side matches any text).
+func wildMatch(a, b string) bool {
+	if a == b {
+		return true
+	}
+	return wildRe(a).MatchString(b) || wildRe(b).MatchString(a)
+}
+
+var wildCache = map[string]*regexp.Regexp{}
+
+func wildRe(s string) *regexp.Regexp {
+	if r, ok := wildCache[s]; ok {
+		return r
+	}
+	parts := strings.Split(s, "…")
+	for i := range parts {
+		parts[i] = regexp.QuoteMeta(parts[i])
+	}
+	r := regexp.MustCompile("^" + strings.Join(parts, ".*") + "$")
+	wildCache[s] = r
+	return r
 }
